@@ -34,12 +34,12 @@ template <unsigned N> struct Univ {
     return base + parent * per + t;
   }
 };
-enum { MAXRULES = 64 };
+enum { MAXRULES = 128 };
 // a symbolic (or, in the native twin, replayed) automaton over N states
 template <unsigned N> struct SymAut {
   bool pres[MAXRULES]; bool fin[N]; unsigned nrules;
   // mask: which universe rules are candidates at all (bit i = rule i); the others are absent and draw no input
-  void draw(unsigned long mask = ~0ul) { nrules = Univ<N>::count(); for (unsigned i = 0; i < nrules; ++i) pres[i] = ((mask >> i) & 1) ? vs_bit() : false; for (unsigned s = 0; s < N; ++s) fin[s] = vs_bit(); }
+  void draw(unsigned long mask = ~0ul) { nrules = Univ<N>::count(); for (unsigned i = 0; i < nrules; ++i) pres[i] = (i < 64 ? ((mask >> i) & 1) != 0 : mask == ~0ul) ? vs_bit() : false;   /* rules 64.. are candidates only without a mask */ for (unsigned s = 0; s < N; ++s) fin[s] = vs_bit(); }
   // candidate mask of the "triangular" sub-universe: a rule is a candidate iff its parent number is <= every child number
   static unsigned long triangular() { unsigned long m = 0; unsigned n = Univ<N>::count(); for (unsigned i = 0; i < n; ++i) { Rule r = Univ<N>::rule(i); bool ok = true; for (unsigned k = 0; k < r.rank; ++k) ok = ok && r.parent <= r.child[k]; if (ok) m |= 1ul << i; } return m; }
   bool has(unsigned sym, unsigned parent, unsigned c0 = 0, unsigned c1 = 0) const { return pres[Univ<N>::index(sym, parent, c0, c1)]; }
